@@ -908,6 +908,11 @@ func (x *exec) frameCheck(st *State, vars map[string]specVal, pos token.Pos) {
 	if ct.ModifiesAll {
 		return
 	}
+	if ct.TrustFrame != "" {
+		// the frame is used by callers but not checked here: an ASSUMPTION, listed in the evidence
+		x.ctx.note("ASSUMED frame of " + x.ctx.Key + " (directive trustframe): " + ct.TrustFrame)
+		return
+	}
 	if st.epoch != 0 {
 		x.oblige(st, "frame", "", "whole-heap havoc in body but no 'modifies *'", False, pos)
 		return
